@@ -71,6 +71,7 @@ struct Step
 using History = std::vector<Step>;
 static std::vector<History> gHistories;
 static bool gFaults = false;
+static int gTickMs  = 500;
 
 struct CState
 {
@@ -150,15 +151,30 @@ struct Run
     sim::Server srv;
     sim::ClientConn cl[2];
     int serverFd[2] = { -1, -1 };
+    size_t peerId[2] = { 0, 0 };
     size_t baselineFds = 0;
 };
 
-static int server_fd_of_latest_peer()
+static int server_fd_of_latest_peer(size_t* id)
 {
     for (size_t i = gLog.size(); i-- > 0;)
         if (gLog[i].kind == E_CONN)
+        {
+            *id = gLog[i].peer;
             return gLog[i].fd;
+        }
     return -1;
+}
+// the server-side descriptor still belongs to that connection (descriptor numbers are reused)
+static bool still_that_peer(sim::Server& srv, int fd, size_t id)
+{
+    for (auto& t : srv.transports())
+    {
+        auto it = t->peers.find(fd);
+        if (it != t->peers.end() && it->second->getID() == id)
+            return true;
+    }
+    return false;
 }
 
 static void run_history(const History& h, vr::Ctx& ctx, uint64_t& steps)
@@ -190,7 +206,7 @@ static void run_history(const History& h, vr::Ctx& ctx, uint64_t& steps)
                 break;
             }
             after(true);
-            r.serverFd[st.conn] = server_fd_of_latest_peer();
+            r.serverFd[st.conn] = server_fd_of_latest_peer(&r.peerId[st.conn]);
             break;
         case A_SEND_A:
             c->send_bytes(kReqA);
@@ -220,16 +236,16 @@ static void run_history(const History& h, vr::Ctx& ctx, uint64_t& steps)
             after(true);
             break;
         case A_HOLD:
-            if (r.serverFd[st.conn] >= 0)
+            if (r.serverFd[st.conn] >= 0 && still_that_peer(r.srv, r.serverFd[st.conn], r.peerId[st.conn]))
                 sim::hold(r.serverFd[st.conn]);
             break;
         case A_RELEASE:
-            if (r.serverFd[st.conn] >= 0)
+            if (r.serverFd[st.conn] >= 0 && sim::S().held.count(r.serverFd[st.conn]) && still_that_peer(r.srv, r.serverFd[st.conn], r.peerId[st.conn]))
                 sim::release(r.serverFd[st.conn]);
             after(false);
             break;
         case A_TICK:
-            sim::tick(500);
+            sim::tick(gTickMs);
             after(false);
             break;
         }
@@ -340,6 +356,7 @@ int main(int argc, char** argv)
     int d1          = opt.geti("d1", 5);
     int d2          = opt.geti("d2", 4);
     gFaults         = opt.geti("faults", 0);
+    gTickMs         = opt.geti("tick", 500);
     {
         History h;
         CState c[2];
